@@ -443,6 +443,24 @@ def b1_dispatch(chk):
     chk.inst("B1", f"{COMMONS}::CENTER_NAME-same-rule", ok, f"both encoders split centre names matching {sorted(sk)} into words" if ok else
              f"KVN splits names matching {sorted(sk)} into words, XML only {sorted(sx)}: a centre such as 'SunEarthL2' is written as one word in XML and "
              f"read back as 'Sunearthl2' (unknown frame)", loc(xm, xm.node))
+    # OBJECT_NAME / OBJECT_ID: the same expression in both encodings (keyword override first, then the object's attribute).
+    # Wave o: the XML OBJECT_ID read the `name` keyword -- a copy of the line above it.
+    kv = {}
+    for n in ast.walk(km.node):
+        if isinstance(n, ast.Call) and isinstance(n.func, ast.Attribute) and n.func.attr == "format":
+            for kw in n.keywords:
+                if kw.arg in ("name", "cospar_id"):
+                    kv[kw.arg] = unparse(kw.value)
+    xv = {}
+    for n in ast.walk(xm.node):
+        if isinstance(n, ast.Assign) and len(n.targets) == 1 and isinstance(n.targets[0], ast.Attribute) and n.targets[0].attr == "text" \
+                and isinstance(n.targets[0].value, ast.Name) and n.targets[0].value.id in ("name", "cospar_id"):
+            xv[n.targets[0].value.id] = unparse(n.value)
+    for key, tag in (("name", "OBJECT_NAME"), ("cospar_id", "OBJECT_ID")):
+        want = f"kwargs.get('{key}', getattr(data, '{key}', 'N/A'))"
+        ok = kv.get(key) == xv.get(key) == want
+        chk.inst("B1", f"{COMMONS}::{tag}-same-value", ok, f"{tag} = {want} in both encodings" if ok else
+                 f"KVN writes {kv.get(key)}, XML writes {xv.get(key)}", loc(xm, xm.node))
     for typ, rel in TYPES.items():
         if typ == "tdm":
             continue
